@@ -858,6 +858,20 @@ func (ev *Evaluator) frameVar(f *Frame, name string) (Val, bool) {
 			return v, true
 		}
 	}
+	if name == "outerindex" {
+		// the range index of the closest enclosing range loop (by block layout) other than the current one
+		best := -1
+		var bv Val
+		for v, val := range f.Env {
+			if x, isPhi := v.(*ssa.Phi); isPhi && x.Comment == "rangeindex" && x.Block() != f.Block && x.Block().Index < f.Block.Index && x.Block().Index > best {
+				best, bv = x.Block().Index, val
+			}
+		}
+		if best >= 0 {
+			return bv, true
+		}
+		return nil, false
+	}
 	// phis of the current loop head and other named values
 	var found Val
 	ok := false
